@@ -148,6 +148,7 @@ class Session:
         self.refused = False
         self.phys = 100
         self.nops = 0
+        self.relocations = 0   # building operations that changed the ID of an existing handle (NV)
 
     # host-observable state
     def ids(self):
@@ -180,6 +181,7 @@ class Session:
             return self._flush(idx)
         from netqasm.sdk.qubit import Qubit
 
+        before_ids = [q.qubit_id for q in self.handles]
         try:
             if k == "new":
                 self.handles.append(Qubit(self.conn))
@@ -219,6 +221,8 @@ class Session:
             self.problems.append((f"the SDK raised {type(e).__name__} on operation {op}", idx))
             self.ended = True
             return self.obs[-1]
+        if any(q.qubit_id != v for q, v in zip(self.handles, before_ids)):
+            self.relocations += 1
         self.obs.append(("step", self.ids()))
         return self.obs[-1]
 
